@@ -295,7 +295,7 @@ def run_traversal(scratch, ob, tier, log):
         raise Undecided("verus produced no result for the traversal unit (timeout=%s)\n%s" % (to, out[-1500:]))
     verified, nerr = int(m.group(1)), int(m.group(2))
     errs = parse_errors(out, gen_lines, 0, 0)
-    labels = [lab for lab, _ in vs.ENSURES] + [vs.LOOP_ENSURES[0], vs.LOOP_DECREASES[0], "C13.traversal.inv", "C13.traversal.children_pushed", "C13.traversal.no_panic"]
+    labels = [lab for lab, _ in vs.ENSURES] + [vs.LOOP_ENSURES[0], vs.LOOP_DECREASES[0], "C13.traversal.inv", "C13.traversal.children_pushed", "C13.traversal.no_panic"] + list(getattr(vs, "THEOREMS", []))
     failed, undecided = {}, []
     for e in errs:
         msg = e["msg"]
@@ -305,8 +305,12 @@ def run_traversal(scratch, ob, tier, log):
         lab = _label_for(gen_lines, e["lines"][1:] + e["lines"][:1])
         if "decreases not satisfied" in msg:
             lab = vs.LOOP_DECREASES[0]
-        elif "precondition not satisfied" in msg or "arithmetic underflow/overflow" in msg:
+        elif ("precondition not satisfied" in msg or "arithmetic underflow/overflow" in msg) and not (
+                e["lines"] and 1 <= e["lines"][0] <= len(gen_lines) and MARK in gen_lines[e["lines"][0] - 1]):
+            # a call or an operation of the real code outside its precondition (an added lemma call is a hint instead)
             lab = "C13.traversal.no_panic"
+        elif "precondition not satisfied" in msg:
+            lab = None
         src_lines = [gen_lines[l - 1].split(MARK)[0].strip() for l in e["lines"][:3] if 1 <= l <= len(gen_lines)]
         if lab is None:
             undecided.append(f"proof hint failed: {msg}: {' <- '.join(src_lines)}")
@@ -315,7 +319,8 @@ def run_traversal(scratch, ob, tier, log):
     results = []
     for lab in labels:
         rec = {"obligation": ob["name"], "clause": lab, "backend": "verus", "kind": "deductive", "bound": None,
-               "function": "PreorderIter::next (verbatim extraction; AABB::intersects and BVHNode::aabb by contract)",
+               "function": ("ghost theorem over the contract of PreorderIter::next (spec function step; no executable code)" if lab in getattr(vs, "THEOREMS", [])
+                            else "PreorderIter::next (verbatim extraction; AABB::intersects and BVHNode::aabb by contract)"),
                "secs": round(secs, 2), "solver_s": round(secs, 2), "checks": verified}
         if lab in failed:
             rec["status"] = "failed"
